@@ -187,7 +187,7 @@ def minimise(avh, prop, kind, script_text, budget=40):
 
 
 def run_tree_property(pid, tier, seed, props_file, enable="serialize", rule_extra="", extra_check=None, level_note=None,
-                      oracle_props=None, assumptions=None, hooks_oracle=False, load_stream=True):
+                      oracle_props=None, assumptions=None, hooks_oracle=False, load_stream=True, extra_props=()):
     """the whole check for one tree property"""
     ctx = Ctx(pid, tier, seed)
     oracle_props = oracle_props or [pid]
@@ -204,6 +204,15 @@ def run_tree_property(pid, tier, seed, props_file, enable="serialize", rule_extr
             lib.coq_hygiene(ctx, lib.closure_of(props_file + "o"))
             lib.check_theorems(ctx, props_file, "pins/%s.json" % pid)
             coq_ok = True
+            # further property files of the same property kept in a file of their own (another author, another closure)
+            for (xf, xpins) in extra_props:
+                ok2, out2, dt2 = lib.coq_make([xf + "o"])
+                if not ok2:
+                    ctx.oblige("coq:build-closure(%s)" % xf, False, "failed files: %s\n%s" % (lib.coq_failed_files(out2), out2[-1200:]))
+                else:
+                    ctx.oblige("coq:build-closure(%s)" % xf, True)
+                    lib.coq_hygiene(ctx, lib.closure_of(xf + "o"))
+                    lib.check_theorems(ctx, xf, xpins)
         ctx.log("coq done (%.0fs)" % dt)
     else:
         ctx.oblige("coq:property-file-present", False, props_file + " does not exist")
